@@ -13,7 +13,8 @@ def mc_escape(wd, alpha_file, maxlen, check_decode=True, workers=6):
     return ["".join(alpha[i - 1] for i in w) for w in words], r
 
 RAND_POOL = (list("'\"\\%_`abzZ0nrtx ;-/*()$?") + ["\u0000", "\b", "\t", "\n", "\r", "\u001a", "\u001b", "\u007f",
-             "é", "ß", "€", "中", "Ł", " ", " ", "😀", "𝒜", "\\'", "\\\\", "''", "\\0", "\\z", "\\Z", "--", "/*", "*/"])
+             "é", "ß", "€", "中", "Ł", " ", " ", "😀", "𝒜", "\\'", "\\\\", "''", "\\0", "\\z", "\\Z", "--", "/*", "*/"]
+             + [chr(i) for i in range(1, 32)] + list("0123456789abcdefABCDEFxXuU{}"))
 
 def rand_strings(rng, n, maxlen=64):
     out = []
